@@ -18,7 +18,13 @@ iterations with *any* list of reported channels and event masks, and any results
 `SO_ERROR`, self-connect test and `readv`; both build flavours (`asserts`).  The scope guard
 `Guarded` (a decidable predicate on the history, `Proofs/ClientOps.lean`) says:
 * `connect()` only while no attempt, connection, pending retry timer or queued `connect()` of that
-  client is outstanding (the property's own quantifier), and only on a live client;
+  client is outstanding (the property's own quantifier), and only on a live client; since the F33 fix a pending
+  retry timer of a cycle that `stop()` has ended is no obstacle: `connect()` on the loop thread with that timer still
+  armed is inside (`connectOk`), and once the loop has run `stop()`'s functor the timer is gone anyway
+  (`stale_timer_cancelled`).  Still outside: `connect()` from ANOTHER thread in the window in which `stop()`'s functor
+  is still queued and the stopped cycle's timer still armed (the timer may fire before the queued functors run; the
+  invariant does not cover an attempt with a `connect()` queued behind it) - the harness runs these histories against
+  the oracle only;
 * `disconnect() / stop() / enableRetry()` only on a live client;
 * from inside the UP callback never `connect()` (a connection is outstanding: the same quantifier); from inside
   the DOWN callback `connect()` only by a client that does not reconnect by itself (`enableRetry` and a registered
@@ -366,6 +372,7 @@ theorem statement_order_tied :
     Gen.ClientSkel.handleWrite = ClientSkel.Decl.handleWrite ∧
     Gen.ClientSkel.handleError = ClientSkel.Decl.handleError ∧
     Gen.ClientSkel.retry = ClientSkel.Decl.retry ∧
+    Gen.ClientSkel.cancelRetryTimer = ClientSkel.Decl.cancelRetryTimer ∧
     Gen.ClientSkel.detailRemoveConnection = ClientSkel.Decl.detailRemoveConnection ∧
     Gen.ClientSkel.detailRemoveConnector = ClientSkel.Decl.detailRemoveConnector ∧
     Gen.ClientSkel.dtor = ClientSkel.Decl.dtor ∧
@@ -434,6 +441,78 @@ example : ¬ Guarded (init true) [.hookUp .connect] := by decide
 example : ¬ Guarded (init true) [.enableRetry, .hookDown .connect] := by decide
 example : (reach true [.hookDown .connect, .enableRetry, .connect .loop, .iter [.connector 4], .envRead (some 0),
     .iter [.conn 0 1]]).dead = true := by decide
+
+/-! ### the back-off timer is an object that is cancelled (F33) -/
+
+/-- **stale_timer_cancelled**: (1) when the loop runs `stop()`'s functor and `stop()` is still the user's last word
+(`connect_` is false), no back-off timer is pending afterwards - neither the one that was armed, nor a new one;
+(2) a new cycle begins (`startCycleInLoop`) by cancelling whatever back-off timer the previous cycle left;
+(3) a cancelled timer never starts an attempt: in a state without a pending back-off timer the timer dispatch creates
+no socket and makes no attempt, whatever the clock says.
+[`stopCancelsRetryTimer`, `cycleStartCancelsRetryTimer`, `retryTimerStored` are generated from the source; the tree
+before a9261b3 extracts `False` / `false` / `false` and these statements fail to type-check against it] -/
+theorem stale_timer_cancelled (c : C) :
+    (c.cConnect = false → nRetry (stopInLoop c).timers = 0) ∧
+    nRetry (cancelIf cycleStartCancelsRetryTimer c).timers = 0 ∧
+    ∀ d : C, nRetry d.timers = 0 → (fireTimers d).nsock = d.nsock ∧ ∀ k t, Ev.attempt k t ∈ (fireTimers d).trace → Ev.attempt k t ∈ d.trace := by
+  refine ⟨fun hs => ?_, cancelRetry_none c, fun d hd => ?_⟩
+  · have hc : cancelIf (decide (stopCancelsRetryTimer c.cConnect)) c = cancelRetry c := by
+      simp [cancelIf, stopCancelsRetryTimer, hs]
+    unfold stopInLoop; rw [hc]
+    have h0 := cancelRetry_none c
+    have hcc : (cancelRetry c).cConnect = false := hs
+    generalize cancelRetry c = e at h0 hcc
+    unfold stopInLoopCore retry closeSock die
+    simp only [retrySchedules, hcc]
+    repeat' split
+    all_goals first | exact h0 | simp_all
+  · have hz := nRetry_zero hd
+    unfold fireTimers
+    simp only
+    rw [foldl_fix _ _ _ (by
+      intro c t ht
+      have hr := hz t (List.mem_filter.mp ht).1
+      split
+      · rfl
+      · split
+        · rename_i h2; exact absurd h2 hr
+        · rfl)]
+    unfold reapConnector die
+    simp only
+    repeat' split
+    all_goals first | exact ⟨rfl, fun _ _ h => h⟩ | (refine ⟨rfl, fun k t h => ?_⟩; simpa using h)
+
+/-- F33 inside the scope guard: the first attempt is refused (timer at +500 ms), `stop()` during the wait, `connect()`
+again on the loop thread while the stopped cycle's timer is still armed (the relaxed clause of `connectOk`): the new
+cycle cancels it; the stale `stop()` functor then ends the new attempt and schedules its retry (`connect_` is true
+again), which connects; the old deadline and everything after pass without a second attempt chain -/
+def f33History : List In :=
+  [.envConnect 111, .connect .loop, .stop .loop, .connect .loop, .iter [.timer], .advance 500000, .iter [.timer],
+   .iter [.connector 4], .advance 40000000, .iter [.timer]]
+
+example : Guarded (init true) f33History := by decide
+example : Guarded (init false) f33History := by decide
+example : nRetry (reach true (f33History.take 3)).timers = 1 ∧ (reach true (f33History.take 3)).cConnect = false ∧
+    nRetry (reach true (f33History.take 4)).timers = 0 := by decide
+example : (reach false f33History).trace.count (.up 2) = 1 ∧ (reach false f33History).nsock = 3 ∧
+    (reach false f33History).dead = false := by decide
+
+/-- **negation witness for the shape before a9261b3** (no cancellation: `stopInLoopCore`, `startCycleCore` are the model's
+`stopInLoop`, `startCycle` when the generated flags are false): refused attempt, `stop()`, the loop runs its functor,
+`connect()` starts a new cycle (attempt in progress) and the clock reaches the stale timer's deadline -/
+def f33Pre (asserts : Bool) : C :=
+  let c1 := run (init asserts) [.envConnect 111, .envConnect 115, .connect .loop, .stop .loop]
+  let c2 := stopInLoopCore { c1 with pending := [] }
+  let c3 := startCycleCore { c2 with tConnect := true, cConnect := true, stopReq := false }
+  { c3 with now := c3.now + 500000 }
+
+/-- ... then the stale timer is still pending while the new attempt is in progress, and firing it runs `startInLoop()` inside
+the new cycle: with assertions `assert(state_ == kDisconnected)` fails; without, a second socket is created while the
+first attempt is outstanding (two attempt chains in one cycle) -/
+theorem stale_timer_fires_without_cancel :
+    nRetry (f33Pre true).timers = 1 ∧ (f33Pre true).cstate = .kConnecting ∧
+    (fireTimers (f33Pre true)).dead = true ∧ Ev.abort "state_ == kDisconnected" ∈ (fireTimers (f33Pre true)).trace ∧
+    (fireTimers (f33Pre false)).sockSt = [.closed, .opened, .opened] := by decide
 
 /-! ### destruction from another thread (F11): outside the theorems above -/
 
